@@ -193,8 +193,11 @@ def run(repo: Repo, tier: str) -> Report:
     # the allocated output template and the declared dask output size, every local resolved to its definition
     tdef = resolve_local(m_, site.args[3]) if len(site.args) > 3 else None
     tlen = None
-    if isinstance(tdef, ast.Call) and ast.unparse(tdef.func) in ("np.zeros", "np.empty", "np.ones") and tdef.args:
-        tlen = ast.unparse(tdef.args[0])
+    shape_arg = None
+    if isinstance(tdef, ast.Call) and ast.unparse(tdef.func) in ("np.zeros", "np.empty", "np.ones"):
+        shape_arg = tdef.args[0] if tdef.args else next((k_.value for k_ in tdef.keywords if k_.arg == "shape"), None)
+    if shape_arg is not None:
+        tlen = ast.unparse(shape_arg)
         if tlen.startswith("(") and tlen.endswith(",)"):
             tlen = tlen[1:-2]
     want_len = ("np.unique(labels_daily).size", "len(np.unique(labels_daily))", "np.unique(labels_daily).shape[0]")
